@@ -263,6 +263,82 @@ def check_rng_bracket(ctx, R="C15.rng"):
         )
 
 
+# Collections whose iteration order decides in which order properties are resolved / values are sampled.
+ORDER_SINKS = [
+    ("scenic.core.specifiers", "Specifier.__init__", "self.requiredProperties", "the dependency DFS of _resolveSpecifiers visits them in this order, which fixes the order in which random property values are drawn"),
+    ("scenic.core.lazy_eval", "LazilyEvaluable.__init__", "self._requiredProperties", "dependencies of lazily evaluated values are visited in this order"),
+    ("scenic.core.lazy_eval", "LazilyEvaluable.__init__", "self._dependencies", "a value's dependencies are sampled in this order"),
+]
+
+# Functions that may draw from the GLOBAL generators (the user-visible random stream).
+GLOBAL_RNG_OK = {"sampleGiven", "uniformPointInner", "genericSampler", "sampler", "appliedTo", "_generateInner"}
+GLOBAL_RNG_FROZEN = {
+    "MeshVolumeRegion.containsObject": "draws candidate points with trimesh.sample.volume_mesh; during scene generation the checker's save/restore bracket (C15.rng) undoes it",
+}
+
+
+def check_sinks(ctx, R="C15.sinks"):
+    ctx.rule(
+        R,
+        "(a) order sinks: the collections that fix the order in which properties are resolved and values sampled (Specifier.requiredProperties, "
+        "LazilyEvaluable._requiredProperties / _dependencies) are built in a program-defined order (sorted / tuple of an ordered value), never "
+        "left as a set; (b) who may draw from the global generators: random.* / numpy.random.* / trimesh.sample.* are called only by the "
+        "sampling functions (sampleGiven, uniformPointInner, samplers, mutators, the rejection loop); everything else (visibility, geometry "
+        "predicates, pruning) must use a private, constant-seeded generator, because it also runs outside the checker's save/restore bracket",
+    )
+    model = ctx.model
+    n = 0
+    for mod, q, attr, why in ORDER_SINKS:
+        fn = model.func(mod, q)
+        ci = model.cls(mod, q.split(".")[0])
+        asg = [a for a in walk_local(fn) if isinstance(a, ast.Assign) and any(unparse(t) == attr for t in a.targets)]
+        if not asg:
+            raise AnalysisError(f"shape not recognised: {q} no longer assigns {attr}")
+        for a in asg:
+            n += 1
+            o = Order(model)
+            r = o.of(a.value, fn, ci)
+            if r == UNORDERED:
+                ctx.finding(
+                    R,
+                    a,
+                    f"{q}: {attr} unordered",
+                    f"{q} stores `{unparse(a.value)}` in {attr}: a hash-ordered collection ({' <- '.join(dict.fromkeys(o.trace))}); {why}, so the same program and seed give different scenes "
+                    f"under another PYTHONHASHSEED",
+                )
+            else:
+                ctx.ok(R, a, f"{q}: {attr} = `{norm_text(a.value, 50)}` has a program-defined order ({r})")
+    ctx.floor(R, n, 3, "order sinks")
+    PRE = ("random.", "numpy.random.", "np.random.", "trimesh.sample.")
+    NOT_DRAWS = ("getstate", "setstate", "get_state", "set_state", "default_rng", "seed", "Random", "RandomState", "Generator")
+    nd = 0
+    for m in model.modules.values():
+        if not (m.path.startswith("src/scenic/core/") or m.path.startswith("src/scenic/syntax/")):
+            continue
+        for c in ast.walk(m.tree):
+            if not isinstance(c, ast.Call):
+                continue
+            cn = dotted(c.func) or ""
+            if not cn.startswith(PRE) or cn.endswith(NOT_DRAWS):
+                continue
+            nd += 1
+            q = lib.qualname_of(c)
+            last = q.split(".")[-1]
+            if last in GLOBAL_RNG_OK:
+                ctx.ok(R, c, f"{q}: `{cn}` is part of sampling")
+            elif q in GLOBAL_RNG_FROZEN:
+                ctx.ok(R, c, f"{q}: `{cn}` frozen exception: {GLOBAL_RNG_FROZEN[q]}")
+            else:
+                ctx.finding(
+                    R,
+                    c,
+                    f"{q} draws from the global generator ({cn})",
+                    f"{q} calls `{norm_text(c, 60)}`, i.e. it consumes the global random stream although it is not a sampling function: when it runs outside scene generation (a behavior, "
+                    f"a monitor, a requirement evaluated during simulation) it shifts every later user-visible random value",
+                )
+    ctx.floor(R, nd, 25, "draws from the global generators in core / syntax")
+
+
 def check_private_rng(ctx, R="C15.private"):
     ctx.rule(
         R,
@@ -281,7 +357,7 @@ def check_private_rng(ctx, R="C15.private"):
                     ctx.ok(R, c, f"{lib.qualname_of(c)}: private generator with constant seed {seed.value}")
                 else:
                     ctx.finding(R, c, f"{lib.qualname_of(c)}: unseeded private generator", f"{lib.qualname_of(c)}: `{unparse(c)}` creates a generator without a constant seed: internal sampling differs from run to run")
-    ctx.floor(R, n, 2, "private generator sites")
+    ctx.floor(R, n, 1, "private generator sites")
     bad = 0
     for m in model.modules.values():
         if not m.path.startswith("src/scenic/core/"):
@@ -308,4 +384,5 @@ def check_private_rng(ctx, R="C15.private"):
 def check(ctx):
     check_order(ctx)
     check_rng_bracket(ctx)
+    check_sinks(ctx)
     check_private_rng(ctx)
